@@ -670,22 +670,26 @@ pub fn manybatches(ctx: &Ctx) -> Stats {
         let nrec = rng.usize(3000, 5000);
         let threads = [2usize, 3, 4, 8, 16][(idx % 5) as usize];
         let s = 16u64;
+        // limit 1: one record per batch; 12 / 30 / 60 bases: two to a dozen records per batch, so that several workers
+        // finish rows of the same batch at about the same time and the batch ends while hand-offs are in flight
+        let limit = [1usize, 12, 30, 60][((idx / 5) % 4) as usize];
         let sc = Scratch::new(ctx, "cgrb");
         st.case(true, mix(idx) ^ mix(nrec as u64 + 17));
-        batches.fetch_add(nrec as u64, std::sync::atomic::Ordering::Relaxed);
+        batches.fetch_add((nrec * 5 / limit.max(5)) as u64, std::sync::atomic::Ordering::Relaxed);
+        st.class(&format!("batch limit {} bases", limit));
         if idx % 2 == 0 {
             // distinct short nucleotide records: record i has a length and content derived from i
             let recs: Vec<Rec> = (0..nrec).map(|i| Rec { id: format!("b{}", i), desc: None, seq: { let l = 1 + (i % 7) + rng.usize(0, 3); nuc_seq(&mut rng, l) } }).collect();
             let inp = sc.write("in.fa", &ser::to_fasta(&recs, &SerOpts::plain()));
             let outp = sc.path("out.cgr");
             st.class("whole-sequence");
-            let case = || Json::obj().set("S", Json::Int(s as i128)).set("threads", Json::u(threads)).set("batch_limit", Json::u(1)).set("n_records", Json::u(recs.len())).set("records", recs_json(&recs));
-            match run_cgr_file(&inp, &outp, s, threads, 1) {
+            let case = || Json::obj().set("S", Json::Int(s as i128)).set("threads", Json::u(threads)).set("batch_limit", Json::u(limit)).set("n_records", Json::u(recs.len())).set("records", recs_json(&recs));
+            match run_cgr_file(&inp, &outp, s, threads, limit) {
                 Ok(Ok(())) => {
                     let data = std::fs::read(&outp).unwrap_or_default();
                     let ls = lines(&data);
                     if ls.len() != recs.len() {
-                        st.violate("cgr.file.rowcount:manybatches", format!("{} rows for {} records ({} threads, one record per batch)", ls.len(), recs.len(), threads), case());
+                        st.violate("cgr.file.rowcount:manybatches", format!("{} rows for {} records ({} threads, batch limit {} bases)", ls.len(), recs.len(), threads, limit), case());
                         return;
                     }
                     for (i, (l, rec)) in ls.iter().zip(recs.iter()).enumerate() {
@@ -694,7 +698,7 @@ pub fn manybatches(ctx: &Ctx) -> Stats {
                             Err(_) => false,
                         };
                         if !ok {
-                            st.violate("cgr.file.row_order:manybatches", format!("row {} is not the CGR of record {} ({} threads, one record per batch)", i, i, threads), case());
+                            st.violate("cgr.file.row_order:manybatches", format!("row {} is not the CGR of record {} ({} threads, batch limit {} bases)", i, i, threads, limit), case());
                             return;
                         }
                     }
@@ -707,8 +711,8 @@ pub fn manybatches(ctx: &Ctx) -> Stats {
             let recs: Vec<Rec> = (0..nrec).map(|i| Rec { id: format!("b{}", i), desc: None, seq: { let l = (i % 9) + rng.usize(0, 4); nuc_seq(&mut rng, l) } }).collect();
             let inp = sc.write("in.fa", &ser::to_fasta(&recs, &SerOpts::plain()));
             st.class("k-mer CGR");
-            let case = || Json::obj().set("k", Json::u(k)).set("S", Json::Int(s as i128)).set("threads", Json::u(threads)).set("batch_limit", Json::u(1)).set("n_records", Json::u(recs.len())).set("records", recs_json(&recs));
-            match run_kcgr(&inp, &sc.path("out.kcgr"), k, s, false, threads, 1) {
+            let case = || Json::obj().set("k", Json::u(k)).set("S", Json::Int(s as i128)).set("threads", Json::u(threads)).set("batch_limit", Json::u(limit)).set("n_records", Json::u(recs.len())).set("records", recs_json(&recs));
+            match run_kcgr(&inp, &sc.path("out.kcgr"), k, s, false, threads, limit) {
                 Ok(d) => {
                     if let Err((sig, msg)) = check_oligocgr_rows(&d, &recs, k, s, false) {
                         st.violate(&format!("{}:manybatches", sig), msg, case());
